@@ -5,6 +5,8 @@ from lib import vlib
 RULE = ("limits: 6 resources (locals, parameters, call arguments, array / map literal elements, constants) x {capacity-1, capacity, "
         "capacity+1} (capacity derived in TLA+ from the real operand-width table) x declaring forms x nesting (main, function, source "
         "module, Eval fragment), optimizer on/off; soup: every token string up to 3 (thorough 4) tokens over a 40-token alphabet; "
+        "near: 12 valid skeleton programs covering every statement kind x every single token edit (insert / replace by any alphabet token, delete, repeat a two-token window, exchange neighbours; thorough: followed by every structural second edit); "
+        "evalseq: every sequence of up to 3 (thorough 4) fragments of a 16-fragment catalogue in one Eval session, including fragments that fail after an import / declaration / constant; "
         "corpus: every UgoSem program x 5 option sets + a re-used symbol table; each compilation under recover, a 30 s watchdog and a "
         "memory ceiling in a restartable worker; on success the bytecode is scanned (jump / try targets, constant, local, builtin, "
         "module indexes, stream decodes to its end); non-trivial = limit cases and token strings that compile")
@@ -20,7 +22,9 @@ def run(ctx):
     ctx.vh("widths", w1, w2)
     total = 0
     ok_cases = 0
-    for label, cfg in (("limits", "UgoLimits_limits"), ("soup", "UgoLimits_soup" if ctx.quick else "UgoLimits_soup_t")):
+    for label, cfg in (("limits", "UgoLimits_limits"), ("soup", "UgoLimits_soup" if ctx.quick else "UgoLimits_soup_t"),
+                       ("near", "UgoLimits_near" if ctx.quick else "UgoLimits_near_t"),
+                       ("evalseq", "UgoLimits_evalseq" if ctx.quick else "UgoLimits_evalseq_t")):
         out = ctx.path(label + ".ndjson")
         ctx.tlc("UgoLimits", cfg, env=dict(OUT=out, W2=w2), timeout=2400, name=label)
         # chunks, so that a worker killed by a runaway compilation is charged to a small set of inputs
